@@ -75,6 +75,10 @@ def run(ctx):
         rnd = case.rnd
         ctx.count("cases")
         regime = rnd.choice(["small", "small", "small", "far"])
+        large = ctx.tier == "thorough" and rnd.random() < 0.005
+        if large:
+            regime = "large"
+        ctx.count("regime:" + regime)
         model = layout.Model(rnd, regime)
         reps = [layout.Real(gtirb, ctx,
                             random.Random(case.seed_str + ":uuid"))
@@ -141,7 +145,8 @@ def run(ctx):
                             targeted(ctx, rep, model, r, s)
         # identical complete final probe on every replica
         qrnd = random.Random(case.seed_str + ":final")
-        qs = model.gen_queries(qrnd, 20, complete_points=True)
+        qs = model.gen_queries(qrnd, 6 if large else 20,
+                               complete_points=True)
         vectors = []
         for rep in reps:
             ans = []
